@@ -134,8 +134,6 @@ type evidenceFile struct {
 	Violations  int                    `json:"violations"`
 }
 
-func ruleOf(o Ob) string { return o.Rule }
-
 func writeJSON(path string, v interface{}) error {
 	if err := os.MkdirAll(filepath.Dir(path), 0o755); err != nil {
 		return err
